@@ -3,3 +3,4 @@ import SspModel.Props.C09
 #print axioms Model.C09.brokenBH_default
 #print axioms Model.C09.fallback_le_one_of_check
 #print axioms Tab.check_sound
+#print axioms Model.C09.wd_physical
